@@ -62,6 +62,26 @@ def _mask_eq(a, b, it=None):
     return s.check() == z3.unsat
 
 
+def require_same_mask(it, m1, m2, what):
+    """position-wise combination of two arrays of one table that were compressed by masks m1, m2 pairs equal rows
+    only if the masks agree on every row: emitted as a side obligation of the code under contract"""
+    if _mask_eq(m1, m2, None):
+        return
+    a = z3.BoolVal(True) if m1 is True else m1
+    b = z3.BoolVal(True) if m2 is True else m2
+    it.ctx.side_obligation(f"aligned:{what}", a == b,
+                           note=f"{what}: operands are compressed by masks that must select the same rows")
+
+
+def _provably_equal(it, a, b):
+    s = z3.Solver()
+    s.set("timeout", 2000)
+    for h in it.ctx.hyps():
+        s.add(h)
+    s.add(a != b)
+    return s.check() == z3.unsat
+
+
 def subst(e, var, by):
     """substitute the generic index `var` (z3 Int const) by term `by` in scalar value e"""
     if isinstance(e, SV):
@@ -190,8 +210,7 @@ class Arr:
     def _check_aligned(self, it, other, what):
         if other.space is not self.space:
             raise EngineError(f"{what}: arrays live in different row spaces ({self.space.name} vs {other.space.name})")
-        if not _mask_eq(self.mask, other.mask, it):
-            raise EngineError(f"{what}: arrays are compressed by different masks")
+        require_same_mask(it, self.mask, other.mask, what)
 
     def sym_setitem(self, it, key, val):
         if isinstance(key, tuple) and len(key) == 1:
@@ -204,8 +223,9 @@ class Arr:
             self._check_aligned(it, key, "masked store")
             m = truth_z(key.e)
             if isinstance(val, Arr):
-                if val.space is not self.space or not _mask_eq(val.mask, _mask_and(self.mask, m), it):
-                    raise EngineError("masked store: right-hand side is not aligned with the mask")
+                if val.space is not self.space:
+                    raise EngineError("masked store: right-hand side lives in another row space")
+                require_same_mask(it, val.mask, _mask_and(self.mask, m), "masked store")
                 v = val.e
             elif is_scalar(val):
                 v = val
@@ -608,6 +628,16 @@ class Mat:
             val = val.arr()
         if isinstance(rows, Series):
             rows = rows.arr()
+        if isinstance(col, slice) and isinstance(rows, (SV, int)) and not isinstance(rows, bool):
+            lo, hi = col.start or 0, col.stop
+            if not isinstance(lo, int) or not isinstance(hi, int) or col.step is not None:
+                raise EngineError("column slice with non-constant bounds")
+            vals = it.iterate(val) if not is_scalar(val) else [val] * (hi - lo)
+            if len(vals) != hi - lo:
+                raise PyRaise(ValueError("could not broadcast input array into column slice"))
+            for c, v in zip(range(lo, hi), vals):
+                self.sym_setitem(it, (rows, c), v)
+            return
         if not isinstance(col, int):
             raise EngineError("ppc matrix store with non-constant column")
         seg = self._seg_of(rows)
@@ -627,8 +657,9 @@ class Mat:
         if isinstance(rows, Arr) and not _is_boolish(rows.e):
             v = val.e if isinstance(val, Arr) else val
             if isinstance(val, Arr):
-                if val.space is not rows.space or not _mask_eq(val.mask, rows.mask, it):
-                    raise EngineError("scatter store: value not aligned with the index array")
+                if val.space is not rows.space:
+                    raise EngineError("scatter store: value lives in another row space than the index array")
+                require_same_mask(it, val.mask, rows.mask, "scatter store")
             elif not is_scalar(val):
                 raise EngineError("scatter store value")
             if it.ctx.merge_mode:
@@ -643,12 +674,27 @@ class Mat:
                     v = val.e if isinstance(val, Arr) else val
                     self.put(it, s, col, scalar_ite(SV(_mask_and(rows.mask, truth_z(rows.e))), v, cur))
                     return
+        if isinstance(rows, (SV, int)) and not isinstance(rows, bool):
+            if not is_scalar(val):
+                raise EngineError("single-row store of a non-scalar")
+            if it.ctx.merge_mode:
+                raise CannotMerge()
+            self.scatter.append((None, to_z(rows, I), col, val))
+            self.written.append(("row", col))
+            return
         raise EngineError(f"ppc matrix store with rows {type(rows).__name__}")
 
-    def row_of(self, space, idx_e, col):
-        """element of column `col` in the row addressed by idx_e (generic row of `space`) after all stores"""
+    def row_of(self, space, idx_e, col, it=None):
+        """element of column `col` in the row addressed by idx_e after all stores (last matching store wins).
+        Index expressions are matched semantically (equal under the path condition); stores through index
+        expressions that are not provably equal are assumed to address other rows (A-LOOKUP injectivity)."""
+        want = z3.simplify(to_z(idx_e, I))
         for sp, idx, c, v in reversed(self.scatter):
-            if c == col and sp is space and z3.eq(z3.simplify(idx), z3.simplify(to_z(idx_e, I))):
+            if c != col:
+                continue
+            if not (sp is space or sp is None or space is None):
+                continue
+            if z3.eq(z3.simplify(idx), want) or (it is not None and _provably_equal(it, idx, want)):
                 return v
         if len(self.segments) == 1:
             s = next(iter(self.segments))
@@ -690,8 +736,9 @@ class ZipArr:
         rows = [a.generic_row() for a in arrs]
         sp, mask, _ = rows[0]
         for s2, m2, _ in rows[1:]:
-            if s2 is not sp or not _mask_eq(mask, m2, it):
-                raise EngineError("zip of columns that are not aligned")
+            if s2 is not sp:
+                raise EngineError("zip of columns of different tables")
+            require_same_mask(it, mask, m2, "zip of columns")
         self.space, self.mask = sp, mask
         self.e = tuple(r[2] for r in rows)
 
